@@ -141,7 +141,7 @@ READER_CIDS = {}
 
 def through_reader(source, encoding, fields, setting):
     """Same signature as rowio.fixed_rows, but the stream is read by cutplace.Reader under a CID that declares these
-    widths and this line delimiter (free text that may be empty, so every cell passes the fields): what is stated about
+    widths and this line delimiter (free text that must not be empty - the sweep's alphabet has no blank, and an item of line breaks only is no empty item): what is stated about
     fixed-width input holds for the validating API as well."""
     import cutplace
     from cutplace import interface
@@ -151,7 +151,7 @@ def through_reader(source, encoding, fields, setting):
     if cid is None:
         cid = interface.Cid()
         name = {"\n": "LF", "\r": "CR", "\r\n": "CRLF", "any": "Any", None: "None"}[setting]
-        cid.read("<c13>", [["D", "Format", "Fixed"], ["D", "Line delimiter", name]] + [["F", n, "", "X", str(w), "Text", ""] for n, w in fields])
+        cid.read("<c13>", [["D", "Format", "Fixed"], ["D", "Line delimiter", name]] + [["F", n, "", "", str(w), "Text", ""] for n, w in fields])
         READER_CIDS[key] = cid
     return cutplace.Reader(cid, source).rows()
 
@@ -310,10 +310,20 @@ def judge_mutant(ctx, rowio, errors, text, widths, setting, fields, file_encodin
         judge(ctx, rowio.fixed_rows, errors, text, widths, setting, fields)
         return
     path = os.path.join(ctx.tmp, "fixed.txt")
-    with open(path, "w", encoding=file_encoding, newline="") as f:
-        f.write(text)
+    declared = file_encoding
+    if file_encoding == "utf-8" and len(text) % 2:
+        # a UTF-8 file that starts with a byte order mark, its encoding declared under any of the names the runtime knows
+        # UTF-8 by: the mark is no part of the first record
+        declared = ["utf-8", "UTF-8", "utf8", "UTF8", "utf_8", "U8"][len(text) % 6]
+        case["declared_encoding"], case["byte_order_mark"] = declared, True
+        with open(path, "w", encoding="utf-8-sig", newline="") as f:
+            f.write(text)
+        ctx.count("mutants.from-file-with-byte-order-mark")
+    else:
+        with open(path, "w", encoding=file_encoding, newline="") as f:
+            f.write(text)
     try:
-        rows = list(rowio.fixed_rows(path, file_encoding, fields, setting))
+        rows = list(rowio.fixed_rows(path, declared, fields, setting))
         error = None
     except errors.DataFormatError as e:
         rows, error = None, e
